@@ -14,6 +14,7 @@ import SpecKitV.Props.C13Finite
 #print axioms ctor_writes_nothing
 #print axioms ctor_written_ge
 #print axioms ctor_result_fresh
+#print axioms inplace_would_write_fortran_Nx2
 #print axioms C13Finite.densities_finite
 #print axioms C13Finite.coherence_finite
 #print axioms C13Finite.tf_finite
